@@ -4,6 +4,7 @@ import (
 	"crypto/ecdsa"
 	"crypto/rand"
 	"crypto/x509"
+	"crypto/x509/pkix"
 	"encoding/binary"
 	"encoding/hex"
 	"fmt"
@@ -224,6 +225,20 @@ func MkCRL(issuer *Cert, this, next time.Time, revoked []*big.Int) []byte {
 		es = append(es, x509.RevocationListEntry{SerialNumber: s, RevocationTime: this, ReasonCode: rc})
 	}
 	return MkCRLEntries(issuer, this, next, es)
+}
+
+// MkCRLLegacy creates a CRL through the deprecated RevokedCertificates field, which also takes entries that the newer field
+// refuses (a zero revocation time is written as year 1).
+func MkCRLLegacy(issuer *Cert, this, next time.Time, rc []pkix.RevokedCertificate) []byte {
+	ic := *issuer.Cert
+	ic.KeyUsage |= x509.KeyUsageCRLSign
+	der, err := x509.CreateRevocationList(rand.Reader, &x509.RevocationList{
+		Number: big.NewInt(1), ThisUpdate: this, NextUpdate: next, RevokedCertificates: rc,
+	}, &ic, issuer.Key)
+	if err != nil {
+		panic(err)
+	}
+	return der
 }
 
 // MkCRLEntries creates a CRL with the given entries, signed by issuer.
